@@ -610,13 +610,141 @@ def _ends_at_position(sm, hi_o, pos_ruid):
     g = sm.prog.by_id.get(hi_o.data.ruid)
     if g is None or g.locals[0]['ty'] != 'usize':
         return False
+    if pos_ruid is None and sm._is_position(g):
+        return True
     ro = single_origin(trace_local(g, 0, (), through_calls=set()))
-    if ro is None or ro.kind != 'callres' or ro.proj or ro.data.ruid != pos_ruid:
-        return False
+    if ro is None or ro.kind != 'callres' or ro.proj or (pos_ruid is not None and ro.data.ruid != pos_ruid) or (pos_ruid is None and not sm._is_position(sm.prog.by_id.get(ro.data.ruid) or g)):
+        # ... or a scanning loop that returns the index of the character it stopped at (the look-ahead's item) / the
+        # input length when the look-ahead found nothing: the position, computed without a second look
+        return _returns_position(sm, g)
     for c2 in g.live_calls:
         if c2.term['arg_tys'] and c2.term['arg_tys'][0].startswith('&mut ') and sm.roles.is_scanner_ty(c2.term['arg_tys'][0]) and c2.bb in g.reachable_after(ro.data.bb):
             return False
     return True
+
+
+def _advance_blocks(sm, g):
+    return sm.advance_blocks(g)
+
+
+def _no_advance_until_return(g, adv, from_bb):
+    """no advance between the read in from_bb and a return, unless the path re-executes the read"""
+    rets = {bb for bb in g.live_blocks if g.blocks[bb]['term']['k'] == 'return'}
+    for a in adv:
+        if a == from_bb or a not in g.reachable_after(from_bb):
+            continue
+        nxt = g.blocks[a]['term'].get('target')
+        if nxt is None:
+            continue
+        if nxt != from_bb and (g.reachable_from(nxt, avoid={from_bb}) & rets):
+            return False
+    return True
+
+
+def _returns_position(sm, g, depth=0):
+    """g (a scanning helper) returns the scanner position *as it is when g returns*: every returned value is
+      * the result of the position function / of another such helper, or
+      * the index component of the scanner's non-advancing look-ahead, or
+      * input.len() on a path behind the `None` edge of a switch on that look-ahead,
+    with no advance between the read and the return."""
+    if depth > 3 or g.locals[0]['ty'] != 'usize' or g.arg_count < 1 or not sm.roles.is_scanner_ty(g.locals[1]['ty']):
+        return False
+    memo = sm.__dict__.setdefault('_retpos_memo', {})
+    if g.id in memo:
+        return memo[g.id]
+    memo[g.id] = False
+    adv = _advance_blocks(sm, g)
+    origins = trace_local(g, 0, (), through_calls=set())
+    res = bool(origins)
+    for o in origins:
+        good = False
+        if o.kind == 'callres' and o.data.ruid is not None and o.data.args and sm._is_self(g, o.data.args[0]):
+            C = sm.prog.by_id.get(o.data.ruid)
+            if C is not None and not o.proj and (sm._is_position(C) or _returns_position(sm, C, depth + 1)):
+                good = _no_advance_until_return(g, adv, o.data.bb)
+            elif C is not None and o.proj[-3:] == (('dc', 'Some'), ('f', 0), ('f', 0)) and sm._is_peek(C):
+                good = _no_advance_until_return(g, adv, o.data.bb)
+        elif o.kind == 'callres' and (o.data.callee or '') == 'core::str::<impl str>::len' and not o.proj and sm._is_self_field(g, o.data.args[0], sm.input_idx):
+            # behind the None edge of a switch on the look-ahead
+            for sb in sorted(g.live_blocks):
+                t = g.blocks[sb]['term']
+                if t['k'] != 'switch':
+                    continue
+                do = single_origin(trace_operand(g, t['discr'], through_calls=set()))
+                if do is None or do.kind != 'discr':
+                    continue
+                po = single_origin(trace_local(g, do.data[2]['pl']['l'], ()))
+                if po is None or po.kind != 'callres' or po.proj or po.data.ruid is None or not po.data.args or not sm._is_self(g, po.data.args[0]):
+                    continue
+                P = sm.prog.by_id.get(po.data.ruid)
+                if P is None or not sm._is_peek(P):
+                    continue
+                listed = [v for v, _ in t['targets']]
+                for v, tb in switch_edges(g, sb):
+                    if (v == 0 or (v == 'otherwise' and listed == [1])) and edge_dominates(g, sb, tb, o.data.bb):
+                        region = g.reachable_from(tb, avoid={po.data.bb})
+                        if not (adv & region) and _no_advance_until_return(g, adv, o.data.bb):
+                            good = True
+        if not good:
+            res = False
+            break
+    memo[g.id] = res
+    return res
+
+
+def _param_text_end_ok(sm, roles, b, pidx, o0, o1, agg_bb):
+    """(text, start, end) all handed in: at every call site text and end come from one call of a scanner H that was
+    given the start; in H text = input[start .. e] and the end it returns is that same e, which is the scanner position
+    when H returns; nothing advances between H and the token construction"""
+    prog = sm.prog
+    for c in b.live_calls:
+        if c.term['arg_tys'] and c.term['arg_tys'][0].startswith('&mut ') and sm.roles.is_scanner_ty(c.term['arg_tys'][0]) and agg_bb in b.reachable_after(c.bb):
+            return 'the scanner advances between receiving the text and building the span'
+    sites = []
+    oid = getattr(b, 'orig_id', b.id)
+    for caller_id in prog.callers.get(oid, ()):
+        sites += prog.edge_sites.get((caller_id, oid), [])
+    if not sites:
+        return 'no call sites'
+    for c in sites:
+        cb = c.body
+        if max(pidx, o0.data, o1.data) - 1 >= len(c.args):
+            return 'arity'
+        to = single_origin(trace_operand(cb, c.args[pidx - 1], through_calls=THROUGH))
+        eo = single_origin(trace_operand(cb, c.args[o1.data - 1], through_calls=set()))
+        if to is None or eo is None or to.kind != 'callres' or eo.kind != 'callres' or to.data.ruid is None or to.data.bb != eo.data.bb:
+            return 'at %s the text and the span end do not come from one scanner call' % c.where()
+        h = prog.by_id[to.data.ruid]
+        ho = single_origin(trace_local(h, 0, to.proj, through_calls=THROUGH))
+        if ho is None or ho.kind != 'callres' or (ho.data.rdef or '') != r_slice.STR_INDEX:
+            return '%s does not return a slice of the input as text' % h.name
+        rb = r_slice.range_bounds(h, ho.data)
+        if rb is None or rb[0] is None or rb[1] is None or not sm._is_self_field(h, ho.data.args[0], sm.input_idx):
+            return '%s: text is not input[lo..hi]' % h.name
+        lo = single_origin(trace_operand(h, rb[0], through_calls=set()))
+        if lo is None or lo.kind != 'param' or lo.proj or lo.data - 1 >= len(to.data.args):
+            # (text, start, end) of one call: the start it returns is the lower bound
+            st = single_origin(trace_operand(cb, c.args[o0.data - 1], through_calls=set()))
+            if st is None or st.kind != 'callres' or st.data.bb != to.data.bb or trace_local(h, 0, st.proj, through_calls=set()) != trace_operand(h, rb[0], through_calls=set()):
+                return '%s: the text does not start at the start handed on' % h.name
+        else:
+            given = trace_operand(cb, to.data.args[lo.data - 1], through_calls=set())
+            here = trace_operand(cb, c.args[o0.data - 1], through_calls=set())
+            if {(o.kind, o.key()[1], o.proj) for o in given} != {(o.kind, o.key()[1], o.proj) for o in here}:
+                return 'at %s the start passed on is not the start the text was scanned from' % c.where()
+        hi_os = trace_operand(h, rb[1], through_calls=set())
+        ret_os = trace_local(h, 0, eo.proj, through_calls=set())
+        if not hi_os or {(o.kind, o.key()[1], o.proj) for o in hi_os} != {(o.kind, o.key()[1], o.proj) for o in ret_os}:
+            return '%s: the end it returns is not the upper bound of the text it returns' % h.name
+        hi_o = single_origin(hi_os)
+        if not _ends_at_position(sm, hi_o, None):
+            return '%s: the text does not end at the scanner position' % h.name
+        for c2 in h.live_calls:
+            if c2.term['arg_tys'] and c2.term['arg_tys'][0].startswith('&mut ') and sm.roles.is_scanner_ty(c2.term['arg_tys'][0]) and c2.bb in h.reachable_after(hi_o.data.bb):
+                return '%s advances after cutting the text' % h.name
+        if _advance_between(sm, cb, to.data.bb, c.bb):
+            return 'the caller advances the scanner between cutting the text and building the token'
+    return None
 
 
 def _param_text_ok(sm, roles, b, pidx, s0, s1, agg_bb):
@@ -628,6 +756,8 @@ def _param_text_ok(sm, roles, b, pidx, s0, s1, agg_bb):
         return 'span start is not the start handed in together with the text'
     # no advancing call in this body before the span is built
     o1 = single_origin(trace_operand(b, s1, through_calls=set()))
+    if o1 is not None and o1.kind == 'param' and not o1.proj and not b.is_closure:
+        return _param_text_end_ok(sm, roles, b, pidx, o0, o1, agg_bb)
     if o1 is None or o1.kind != 'callres':
         return 'span end is not read from the scanner position'
     for c in b.live_calls:
@@ -930,6 +1060,11 @@ def _dispatch_targets(D, adv, ch):
                     v = ch
                 elif not pl['p']:
                     v = env.get(pl['l'])
+                elif pl['p'] == ['deref'] and pl.get('ty') == 'char':
+                    v = env.get(-pl['l'] - 1)        # through a match-guard borrow of the character
+            elif rv['k'] == 'ref' and not rv.get('mut') and rv['pl']['l'] == dest and rv['pl']['p'] and rv['pl'].get('ty') == 'char':
+                env[-l - 1] = ch
+                continue
             elif rv['k'] == 'use' and rv['op']['k'] == 'const':
                 v = rv['op'].get('int')
             elif rv['k'] == 'discr' and rv['pl']['l'] == dest and not rv['pl']['p']:
@@ -968,7 +1103,13 @@ def _dispatch_targets(D, adv, ch):
             if g is not None and g.locals[0]['ty'] == D.locals[0]['ty']:
                 out.add(c.ruid)          # a token scanner: the dispatch ends here
             else:
-                env.pop(t['dest']['l'], None)      # a guard / helper: its outcome is unknown, go on
+                env.pop(t['dest']['l'], None)      # a guard / helper: its outcome is unknown, go on ...
+                if g is not None and g.locals[0]['ty'] == 'bool' and g.arg_count == 1 and g.locals[1]['ty'] == 'char' and len(c.args) == 1 and not t['dest']['p']:
+                    # ... unless it is a pure predicate of the character (`Some((start, ch)) if is_number_start(ch)`): run it
+                    a = val(env, c.args[0])
+                    r = eval_char_pred(g, a) if a is not None else None
+                    if r is not None:
+                        env[t['dest']['l']] = int(r)
                 st.append((t.get('target'), tuple(sorted(env.items()))))
         elif t['k'] in ('drop', 'assert'):
             st.append((t['target'], e2))
